@@ -333,36 +333,21 @@ def r5(ctx):
         return
     ctx.fn(b)
     P = 'bin::run_dedupe'
+    from ..analysis import bool_set_events, option_default_events
     for f, src in (('no_check_size', 'transform'), ('match_links', 'match_links')):
-        ws = field_writes(b, f, 'DedupeConfig')
-        if not ctx.floor(rule, 'write of dedupe_config.' + f, len(ws), 1, b.where()):
+        evs = bool_set_events(b, f, 'DedupeConfig')
+        if not ctx.floor(rule, 'write of dedupe_config.' + f, len(evs), 1, b.where()):
             continue
-        bi, s = ws[0]
-        rv = s['rv']
-        good = rv['k'] == 'bin' and rv['op'] in ('BitOr',)
-        if good:
-            a, c = direct_field(b, rv['a']), backslice(b, [rv['b']])
-            good = a is not None and a[0] == f and not a[2] and src in c.field_names() and count_nots(b, c) == 0
-        ctx.check(good, rule, '%s|%s' % (P, f), b.where(s['line']), '%s |= header.%s%s' % (f, src, '.is_some()' if src == 'transform' else ''), '%s is not OR-ed with the header setting' % f)
-    ws = field_writes(b, 'rf_over', 'DedupeConfig')
-    if ctx.floor(rule, 'write of dedupe_config.rf_over', len(ws), 1, b.where()):
-        bi, s = ws[0]
-        guard = None
-        for d in b.dominators()[bi]:
-            t = b.blocks[d]['term']
-            if t['k'] == 'switch':
-                sl = backslice(b, [t['op']])
-                isn = [c for c in sl.calls if c.matches(r'Option(::)?<.*>::is_none$')]
-                if isn and direct_field(b, {'c': [op_local(isn[-1].args[0]), []]}) is not None or (isn and 'rf_over' in backslice(b, [isn[-1].args[0]]).field_names() and len(sl.calls) < 30):
-                    for c in isn:
-                        base = backslice(b, [c.args[0]])
-                        dfl = direct_def(b, c.args[0])
-                        if dfl[0] == 'place' and [e[2] for e in dfl[1][1] if isinstance(e, list) and e[0] == 'F'][-1:] == ['rf_over']:
-                            tt, ft = switch_targets_bool(t)
-                            guard = b.dominates(tt, bi)
-        vs = backslice(b, rvalue_operands(s['rv']))
+        bi, s, cond = evs[0]
+        # `f |= header.src` or `if header.src { f = true }`: the option given on the command line is never switched off by the header
+        good = cond is not None and src in cond.field_names() and all(c is not None for _, _, c in evs)
+        ctx.check(good, rule, '%s|%s' % (P, f), b.where(s['line']), '%s is only switched on, by header.%s%s' % (f, src, '.is_some()' if src == 'transform' else ''), '%s is not OR-ed with the header setting' % f)
+    evs = option_default_events(bn, b, 'rf_over', 'DedupeConfig')
+    if ctx.floor(rule, 'write of dedupe_config.rf_over', len(evs), 1, b.where()):
+        bi, vs, how = evs[0]
         src_ok = vs.has_call(r'GroupConfig::rf_over$')
-        ctx.check(bool(guard) and src_ok, rule, P + '|rf_over', b.where(s['line']), 'rf_over = Some(header.rf_over()) only when not given', 'rf_over is overwritten although -n was given, or not taken from the header')
+        ctx.check(how in ('guarded-some', 'get_or_insert') and all(h != 'other' for _, _, h in evs) and src_ok, rule, P + '|rf_over', b.where(b.blocks[bi]['term']['line']), 'rf_over = Some(header.rf_over()) only when not given (%s)' % how,
+                  'rf_over is overwritten although -n was given, or not taken from the header')
     ws = field_writes(b, 'isolated_roots', 'DedupeConfig')
     if ctx.floor(rule, 'write of dedupe_config.isolated_roots', len(ws), 1, b.where()):
         bi, s = ws[0]
